@@ -558,7 +558,12 @@ write_global(struct mtree_writer *mtree)
 	if (setstr.length > 0)
 		archive_string_sprintf(&mtree->buf, "/set%s\n", setstr.s);
 	archive_string_free(&setstr);
-	mtree->set.keys = keys;
+	/*
+	 * A keyword that was not looked at this time (nothing to count in
+	 * this directory, or no better value) keeps the state it had: in
+	 * particular one that an earlier "/unset" removed stays removed.
+	 */
+	mtree->set.keys = (keys & effkeys) | (oldkeys & ~effkeys);
 	mtree->set.processing = 1;
 }
 
